@@ -777,6 +777,9 @@ func runSeq(o Opts) *Result {
 	defer d.Close()
 	x := &seqExec{d: d, res: res}
 	for idx := 0; idx < o.N; idx++ {
+		if timeUp() {
+			break
+		}
 		if o.Only >= 0 && idx != o.Only {
 			continue
 		}
